@@ -295,6 +295,8 @@ class ProgGen(object):
         f = self.f
         k = r.random()
         pin = f.get("p_inside", 0.45)
+        if not self.enabled and f.get("p_inside_disabled") is not None:
+            pin = f["p_inside_disabled"]     # while an @-command has exclusion switched off, regions are ordinary bed area
         if f.get("hv") and r.random() < 0.25:
             return self.hostile_value_step()
         if f.get("fw_stray") and not self.fwret and r.random() < (0.12 if getattr(self, "stray_g11", False) else 0.02):
